@@ -549,8 +549,8 @@ def check_python(c: Case, outdir: str, stats: Stats) -> None:
                         continue
                     raise Violation(f"Python module {f.base}_bp has no class {m.msg.name}", signature="py-missing-class")
                 stats.evaluations += 1
-                if cls.BYTES_LENGTH != ref.nbytes(m.msg):
-                    raise Violation(f"{m.msg.name}.BYTES_LENGTH = {cls.BYTES_LENGTH}, capacities {m.caps} give {ref.nbytes(m.msg)}", signature="py-bytes-length")
+                if getattr(cls, "BYTES_LENGTH", None) != ref.nbytes(m.msg):
+                    raise Violation(f"{m.msg.name}.BYTES_LENGTH = {getattr(cls, 'BYTES_LENGTH', '(missing)')}, capacities {m.caps} give {ref.nbytes(m.msg)}", signature="py-bytes-length")
 
 
 # -- C ----------------------------------------------------------------------------
@@ -849,7 +849,7 @@ def _run(c: Case, texts: Dict[str, str], work: str, stats: Stats) -> None:
                 raise Violation(f"{f.filename}: const {d.name} = {d.text} is a {type(node).__name__} in the parsed schema, declared value is of kind {d.kind}", signature="ast-kind")
             if not same(d.kind, node.value, d.value):
                 raise Violation(
-                    f"{f.filename}: const {d.name} = {d.text} evaluates to {node.value!r} ({type(node).__name__}); ordinary arithmetic gives {d.value!r}",
+                    f"{f.filename}: const {d.name} = {d.text} evaluates to {node.value!r} ({type(node).__name__}); {'ordinary arithmetic gives' if d.kind == 'int' else 'the declared value is'} {d.value!r}",
                     {"labels": d.labels},
                     signature=f"ast-value:{d.kind}",
                 )
